@@ -15,6 +15,7 @@ import (
 	enc "github.com/named-data/ndnd/std/encoding"
 	mgmt "github.com/named-data/ndnd/std/ndn/mgmt_2022"
 	spec "github.com/named-data/ndnd/std/ndn/spec_2022"
+	"math"
 )
 
 // ContentStoreModule is the module that handles Content Store Management.
@@ -83,6 +84,14 @@ func (c *ContentStoreModule) config(interest *spec.Interest, pitToken []byte, in
 
 	if (params.Flags == nil && params.Mask != nil) || (params.Flags != nil && params.Mask == nil) {
 		core.LogWarn(c, "Flags and Mask fields must either both be present or both be not present")
+		response = makeControlResponse(409, "ControlParameters are incorrect", nil)
+		c.manager.sendResponse(response, interest, pitToken, inFace)
+		return
+	}
+
+	if params.Capacity != nil && *params.Capacity > math.MaxInt32 {
+		// Not representable as a cache size (converted to int it would be negative or absurd)
+		core.LogWarn(c, "Capacity=", *params.Capacity, " is out of range")
 		response = makeControlResponse(409, "ControlParameters are incorrect", nil)
 		c.manager.sendResponse(response, interest, pitToken, inFace)
 		return
